@@ -2,6 +2,8 @@ package rules
 
 import (
 	"fmt"
+	"go/types"
+	"reflect"
 	"sort"
 	"strings"
 
@@ -79,6 +81,19 @@ func c181(c *an.Ctx, p *an.Prog) {
 			})
 			if !errRet {
 				bad = append(bad, "no failing exit for a decode error")
+			}
+			// KnownFields is a property of this decoder object only: a type below the decoded value that unmarshals
+			// itself through (*yaml.Node).Decode gets a fresh, non-strict decoder; an inline map swallows any key
+			if args := ci.Common().Args; len(args) == 2 {
+				v := args[1]
+				if mi, ok := v.(*ssa.MakeInterface); ok {
+					v = mi.X
+				}
+				hole, undec := yamlStrictnessHoles(p, v.Type())
+				bad = append(bad, hole...)
+				for _, u := range undec {
+					c.Undecided("C18.1", fnKey(fn)+"|custom-unmarshaler|"+u, p.InstrPos(ci), "type "+u+" below the configuration root has a custom UnmarshalYAML that does not use (*yaml.Node).Decode: whether it refuses unknown keys cannot be decided structurally")
+				}
 			}
 			c.Check(len(bad) == 0, "C18.1", fnKey(fn)+"|strict-decode", p.InstrPos(ci), "KnownFields(true) before Decode on a decoder over the named file; decode errors are fatal", strings.Join(uniqS(bad), "; "))
 		}
@@ -610,4 +625,99 @@ func c184(c *an.Ctx, p *an.Prog) {
 		}
 		c.Check(len(bad) == 0, "C18.4", "fromConfig|only-from-constructor", p.Pos(fc.Pos()), "fromConfig fills only the fresh Dir of NewDirFromConfig", strings.Join(bad, "; "))
 	}
+}
+
+// yamlStrictnessHoles walks the type tree below the decoded configuration value and reports the constructs through
+// which unknown keys are accepted although the decoder has KnownFields(true): custom unmarshalers that re-decode
+// their node with (*yaml.Node).Decode (which builds a fresh decoder without the flag — read from yaml.v3's source),
+// and `,inline` maps. undec lists custom unmarshalers of another shape.
+func yamlStrictnessHoles(p *an.Prog, root types.Type) (holes, undec []string) {
+	seen := map[types.Type]bool{}
+	var walk func(t types.Type)
+	walk = func(t types.Type) {
+		if t == nil || seen[t] {
+			return
+		}
+		seen[t] = true
+		if n, ok := t.(*types.Named); ok {
+			if n.Obj().Pkg() != nil && strings.HasPrefix(n.Obj().Pkg().Path(), an.Module) {
+				ms := p.SSA.MethodSets.MethodSet(types.NewPointer(n))
+				for i := 0; i < ms.Len(); i++ {
+					if ms.At(i).Obj().Name() != "UnmarshalYAML" {
+						continue
+					}
+					fn := p.SSA.MethodValue(ms.At(i))
+					if fn == nil {
+						continue
+					}
+					sig := fn.Signature
+					if sig.Params().Len() == 1 && strings.HasSuffix(sig.Params().At(0).Type().String(), "yaml.v3.Node") {
+						if reachesStatic(p, fn, "(*gopkg.in/yaml.v3.Node).Decode", 4) {
+							holes = append(holes, "type "+n.Obj().Name()+" below the configuration root unmarshals itself through (*yaml.Node).Decode: that call builds a fresh decoder without KnownFields, so unknown keys inside it are accepted")
+						} else {
+							undec = append(undec, n.Obj().Name())
+						}
+					}
+					// the obsolete form UnmarshalYAML(func(interface{}) error) re-enters the same decoder and keeps the flag
+				}
+			}
+			walk(n.Underlying())
+			return
+		}
+		switch u := t.(type) {
+		case *types.Pointer:
+			walk(u.Elem())
+		case *types.Slice:
+			walk(u.Elem())
+		case *types.Array:
+			walk(u.Elem())
+		case *types.Map:
+			walk(u.Elem())
+		case *types.Struct:
+			for i := 0; i < u.NumFields(); i++ {
+				tag := reflect.StructTag(u.Tag(i)).Get("yaml")
+				if strings.Contains(tag, ",inline") {
+					if _, isMap := u.Field(i).Type().Underlying().(*types.Map); isMap {
+						holes = append(holes, "field "+u.Field(i).Name()+" is an inline map: it accepts every key KnownFields would refuse")
+					}
+				}
+				walk(u.Field(i).Type())
+			}
+		}
+	}
+	walk(root)
+	return
+}
+
+// reachesStatic: does fn reach a call of the named function through statically resolved calls inside the module?
+func reachesStatic(p *an.Prog, fn *ssa.Function, name string, depth int) bool {
+	seen := map[*ssa.Function]bool{}
+	var walk func(f *ssa.Function, d int) bool
+	walk = func(f *ssa.Function, d int) bool {
+		if f == nil || seen[f] || d < 0 {
+			return false
+		}
+		seen[f] = true
+		for _, b := range f.Blocks {
+			for _, in := range b.Instrs {
+				ci, ok := in.(ssa.CallInstruction)
+				if !ok {
+					continue
+				}
+				if an.CalleeName(ci) == name {
+					return true
+				}
+				if cal := ci.Common().StaticCallee(); cal != nil && p.InRepo(cal) && walk(cal, d-1) {
+					return true
+				}
+			}
+		}
+		for _, af := range f.AnonFuncs {
+			if walk(af, d-1) {
+				return true
+			}
+		}
+		return false
+	}
+	return walk(fn, depth)
 }
